@@ -140,9 +140,28 @@ def standInH : Handler := fun j => do
   let rt ← listOf nat (← field j "rt")
   return Json.mkObj [("dims", jList jNat (dynIdx shape 0)), ("alloc", jList jNat (standInShape shape rt))]
 
+/-- args: {"layout": L (static), "shape": [nat], "data": [int] | null, "refuse_offset": bool}
+    -> {"layout": [[[step, bound]]], "data": transformConstant of the data under the new layout} -/
+def subviewGlobalH : Handler := fun j => do
+  let l ← layoutOfJson (← field j "layout")
+  let shape ← listOf nat (← field j "shape")
+  let ro := match j.getObjVal? "refuse_offset" with
+    | .ok (.bool b) => b
+    | _ => false
+  match static? l with
+  | none => return Json.mkObj [("layout", Json.null)]
+  | some s =>
+    let n := subviewGlobalLayout s shape
+    let dataJ ← field j "data"
+    let res : Json ← if dataJ.isNull then pure Json.null else do
+      let data ← listOf int dataJ
+      pure (jExc (jOpt (jList jInt)) (transformConstantF ro data (ofStatic n l.offset)))
+    return Json.mkObj [("layout", jList (jList fun x => Json.arr #[jNat x.step, jNat x.bound]) n), ("data", res)]
+
 def handlers : List (String × Handler) :=
   [("c12.transformConstant", transformConstantH), ("c12.transposeTuple", transposeTupleH),
    ("c12.memspace", memspaceH), ("c12.realize", realizeH), ("c12.chk", chkH), ("c12.syntactic", syntacticH),
-   ("c12.assignCasts", assignCastsH), ("c12.standIn", standInH)]
+   ("c12.assignCasts", assignCastsH), ("c12.standIn", standInH),
+   ("c12.subviewGlobal", subviewGlobalH)]
 
 end SnaxVerif.Drv.C12
